@@ -1915,7 +1915,7 @@ int femmcli::LuaMagneticsCommands::luaModifyMaterialProperty(lua_State *L)
         m->NStrands = (int) lua_todouble(L,3);
         break;
     case 13:
-        m->WireD = lua_todouble(L,4);
+        m->WireD = lua_todouble(L,3);
         break;
     default:
         lua_error(L, "mi_modifymaterial(): invalid propnum!");
